@@ -32,6 +32,12 @@ exiting before readiness, lock-wait timeout, threads descheduled at connect / li
 
 * spawn-while-alive    — ``Popen`` for a command while a worker of the same command is alive and listening;
 * two-live-workers     — a worker starts listening while another worker of the same command is listening;
+  Both sites get the suffix ``,after-exiting-worker-unlinked-successor-socket`` when the recorded filesystem
+  history shows the cause: a worker process unlinked a socket inode that was not its own but the open listening
+  socket of another worker (``_unlink_bound_unix_socket``: lstat() saw its own inode, a launcher then replaced the
+  dead socket and spawned a successor, the late unlink() removed the successor's path).  That defect is expected on
+  the current tree (known finding; about 6 runs in 1000 in the quick tier, so the thorough tier always hits it);
+  any spawn-while-alive / two-live-workers WITHOUT the suffix is a different defect.
 * returned-dead-path   — nothing listens on the path ``launch()`` returns, at the return event, and nothing did at any
                          moment of that launch (a worker that left between the launcher's successful probe and the
                          return is counted as probe ``worker_left_between_probe_and_return``: no probe can exclude it).
@@ -84,6 +90,9 @@ ASSUMPTIONS = [
     "no-idle-exit is a liveness extension taken from the serve_unix docstring (sensitivity to lost count updates)",
     "(b) a worker is 'alive' while its listening socket is open; launcher process death (kernel releasing the flock) "
     "and worker start-up longer than worker_startup_timeout are not generated",
+    "(b) the gap between lstat() and unlink() in an exiting worker's serve_unix cleanup is a scheduling point; both tiers "
+    "are expected to report spawn-while-alive/popen,after-exiting-worker-unlinked-successor-socket and "
+    "two-live-workers/listen,after-exiting-worker-unlinked-successor-socket (known finding, replays in findings/)",
     "(b) 'accepting at that moment' is judged at the return event, but a worker that was observed listening by this "
     "launch() and left before it returned is not a violation (inherent to any probe)",
 ]
@@ -599,11 +608,24 @@ def run_launcher(ctx: RunCtx) -> None:
     def live(p: Any) -> bool:
         return p.returncode is None and p.sock is not None and p.sock.listener is not None and not p.sock.listener.closed
 
+    def cause(victims: list[Any]) -> tuple[str, str]:
+        """Site suffix + text when the fs history shows that the live worker lost its socket path to an exiting
+        worker's late unlink (lstat/unlink of _unlink_bound_unix_socket split by a launcher's rebind)."""
+        for x in victims:
+            for u in w.usurped:
+                if u["owner_pid"] == x.pid:
+                    return (",after-exiting-worker-unlinked-successor-socket",
+                            f"; fs history: at event {u['seq']} exiting worker pid={u['by_pid']} (own socket inode "
+                            f"{u['by_own_ino']}) unlinked {u['path']} whose inode {u['ino']} was the listening socket of "
+                            f"worker pid={u['owner_pid']}, leaving that live worker unreachable")
+        return "", ""
+
     def on_spawn(proc: Any) -> None:
         others = [x for x in w.workers if x is not proc and x.base_argv == proc.base_argv and live(x)]
         if others:
-            violation("spawn-while-alive", "popen", f"launcher pid={proc.spawned_by} spawned worker pid={proc.pid} for "
-                      f"{proc.base_argv} while worker pid={others[0].pid} of the same command is alive and listening")
+            sfx, why = cause(others)
+            violation("spawn-while-alive", "popen" + sfx, f"launcher pid={proc.spawned_by} spawned worker pid={proc.pid} for "
+                      f"{proc.base_argv} while worker pid={others[0].pid} of the same command is alive and listening" + why)
 
     def on_listen(sock: Any) -> None:
         proc = next((x for x in w.workers if x.pid == sock.owner_pid), None)
@@ -613,8 +635,9 @@ def run_launcher(ctx: RunCtx) -> None:
         observed.setdefault(proc.spawned_by, set()).add(sock.path)
         others = [x for x in w.workers if x is not proc and x.base_argv == proc.base_argv and live(x)]
         if others:
-            violation("two-live-workers", "listen", f"worker pid={proc.pid} starts listening for {proc.base_argv} while worker "
-                      f"pid={others[0].pid} of the same command is alive and listening (on {others[0].sock.path})")
+            sfx, why = cause(others)
+            violation("two-live-workers", "listen" + sfx, f"worker pid={proc.pid} starts listening for {proc.base_argv} while "
+                      f"worker pid={others[0].pid} of the same command is alive and listening (on {others[0].sock.path})" + why)
 
     w.on_spawn, w.on_listen, w.perturb = on_spawn, on_listen, perturb
     real_connect = sl.FakeUnixSocket.connect
